@@ -27,6 +27,10 @@ def real_case(case):
         return {'__crash__': 'SchedError: %s' % e, 'tb': ''}
 
 
+def is_pre(case):
+    return any(p and p[0] == 'cn' for p in case['progs'])
+
+
 def progs_str(case):
     return ' / '.join(' '.join(p) for p in case['progs'])
 
@@ -302,8 +306,8 @@ def expected_of(tok):
         return (8, close_payload(c[1], c[2]))
     if k == 'tk':
         return (9, b'')
-    if k in ('rm', 'rm2'):
-        return None         # the loop receives a message: nothing is written
+    if k in ('rm', 'rm2', 'cn'):
+        return None         # the loop receives a message / connects: no frame is written
     raise ValueError(tok)
 
 
@@ -625,12 +629,18 @@ def run_and_compare(res, cases, judge, model_ok):
         if '__crash__' in r:
             res.crashes.append(r)
             continue
-        lines.append(model_line(c, r['steps']))
+        # cases that start before the connection exists (`cn`) are judged by the oracle alone: the thread model starts from an
+        # established connection
+        lines.append(None if is_pre(c) else model_line(c, r['steps']))
         idx.append(k)
-    models = runner.model_run(lines) if (model_ok and lines) else [None] * len(lines)
+    todo = [l for l in lines if l is not None]
+    mres = iter(runner.model_run(todo) if (model_ok and todo) else [None] * len(todo))
+    models = [None if l is None else next(mres) for l in lines]
     seen_cls = {}
     for k, line, m in zip(idx, lines, models):
         c, r = cases[k], reals[k]
+        if is_pre(c):
+            res.count('oracle_only_cases_starting_before_connect')
         key = (c['z'], progs_str(c), tuple(t for t, _ in r['steps']), c['mode'], env_keys(c))
         res.case(key, nontrivial=interleaved(r['steps']))
         res.count('mode_' + c['mode'])
@@ -639,6 +649,10 @@ def run_and_compare(res, cases, judge, model_ok):
         if c.get('family'):
             res.count('family_' + c['family'])
         probs = list(r['problems']) + dataflow_problems(r)
+        if r.get('lock_stores'):
+            # the mechanism the property is anchored in is ONE lock per session: a store of a new lock object after the constructor
+            # is a change of that mechanism (searched for a failing schedule by the `before-connect` families)
+            probs.append('session._lock was replaced by a new lock object after the constructor, at %s' % ', '.join(sorted(set(r['lock_stores']))))
         real_line = canon_real(c, r)
         if probs:
             res.diffs.append(dict(input=c, real=real_line[-1500:], model='(harness) ' + '; '.join(probs)[:800]))
